@@ -160,6 +160,13 @@ extern "C" int split()
 // ---- what reaches execvpe: executable, argument vector, environment - for the three forms of Process::open.
 // vfork() is replaced by a stub returning 0 (the child side), execvpe() by a stub that compares its arguments with what the
 // harness passed in and then ends the (child) process. No pipes (streams == 0).
+static int g_wantExit;
+extern "C" void vf_exit_check(int status)
+{
+  vf_assert(status == g_wantExit, "the process ends with the exit code it was given");
+  vf_reach("end");
+  exit(0);      // (model: ends the path)
+}
 static const char* g_wantExe; static const char* g_wantArgv[6]; static unsigned g_wantArgc; static bool g_wantEnv;
 extern "C" char** environ;
 extern "C" int vf_vfork() { return 0; }
@@ -186,7 +193,7 @@ extern "C" int vf_execvpe(const char* file, char* const argv[], char* const envp
 extern "C" int exec_args()
 {
   static char a0[] = "prog", a1[] = "a b", a2[] = "-x";
-  static char* env0[] = {0}; environ = env0;
+  static char* env0[] = {0}; environ = env0; g_wantExit = 0;
   unsigned form = vf_pick(4);
   g_wantEnv = vf_pick(2);
   Map<String, String> env; if(g_wantEnv) { env.insert(String("K"), String("V")); env.insert(String("L"), String("W")); }
@@ -197,5 +204,15 @@ extern "C" int exec_args()
   else if(form == 2) { List<String> args; args.append(String("prog")); args.append(String("a b")); args.append(String("-x")); p.open(String("prog"), args, 0, env); }
   else p.open(String("prog \"a b\" -x"), 0, env);
   vf_assert(false, "exec was not reached");
+  return 0;
+}
+
+// Process::exit(code) ends the calling process with that code (what the parent's join() then returns)
+extern "C" int exit_code()
+{
+  uint32 code = vf_u8();
+  g_wantExit = (int)code;
+  Process::exit(code);
+  vf_assert(false, "Process::exit returned");
   return 0;
 }
